@@ -155,6 +155,7 @@ func props() []prop {
 			Assumptions: with("ties between a firing instant and a cancelling action at the same virtual instant are accepted either way"),
 			Units: []unit{
 				{Check: "scheduler", Pkg: "internal/actor", Shards: [2]int{8, 16}, Timeout: [2]time.Duration{6 * min, 40 * min}, CrashKey: "c20-crash", OnlyKinds: []string{"c20-", "harness-"}},
+				{Check: "schedtwins", Pkg: "internal/actor", Shards: [2]int{8, 8}, Timeout: [2]time.Duration{6 * min, 10 * min}, CrashKey: "c20-crash", HangKind: "c20-hang", OnlyKinds: []string{"c20-", "harness-"}},
 			},
 		},
 		{
